@@ -333,6 +333,19 @@ func vfRunHandshakeFailure(t *testing.T, spec *vfSpec, res *vfRes) {
 			want := vfExpectedT1(spec.A.RTOMaxMs)
 			if vfWaitCh(done, want+30*time.Second) != nil {
 				res.violate("C04", "fail/hang/"+spec.Kind, "connect call against a peer that never answers did not return within %v of virtual time", want+30*time.Second)
+				kind := "INIT"
+				if spec.Kind == "cookie-silent" {
+					kind = "COOKIE-ECHO"
+				}
+				n := 0
+				for _, e := range sim.net.events() {
+					if e.Kind == vfWrWrite && e.Side == 0 && vfFirstChunkKind(e.Raw) == kind {
+						n++
+					}
+				}
+				if n > 9 {
+					res.violate("C19", "t1/unbounded/"+spec.Kind, "%d %s packets on the wire and the connect call still has not failed: handshake retransmission is not bounded (limit 1+8)", n, kind)
+				}
 			} else {
 				wantErr := ErrHandshakeInitAck
 				rtt := time.Duration(0)
